@@ -326,6 +326,7 @@ class Visitor:
             property_setter_or_deleter = (
                 prop_function in {"setter", "deleter"}
                 and path == function.path
+                and function.name in self.current.members
                 and self.current.get_member(function.name).has_labels("property")
             )
             if property_setter_or_deleter:
